@@ -12,7 +12,8 @@ from zope.interface.interface import INTERFACE_METHODS, InterfaceClass
 
 from zmon import util
 
-CONFORM = ['absent', 'none', 'value', 'raise-ValueError', 'raise-TypeError', 'raise-AttributeError',
+CONFORM = ['absent', 'none', 'value', 'value-static', 'value-instfunc', 'value-callableobj', 'value-partial',
+           'none-static', 'raise-ValueError', 'raise-TypeError', 'raise-AttributeError',
            'raise-KeyError', 'get-AttributeError', 'get-RuntimeError']
 PROVIDED = ['no', 'class', 'direct']
 ALT = ['absent', 'given', 'none']
@@ -76,7 +77,26 @@ def build_iface(custom, log, state):
 
 def build_obj(conform, provided, iface, log, state):
     ns = {}
-    if conform in ('none', 'value') or conform.startswith('raise-'):
+    inst_attrs = {}
+    if conform in ('value-static', 'none-static', 'value-instfunc', 'value-callableobj', 'value-partial'):
+        # a __conform__ that is a perfectly good callable but not a bound method
+        def conform_fn(proto):
+            log.append('conform')
+            state['conform_arg_ok'] = proto is iface
+            return None if conform.startswith('none') else state['conform_value']
+        if conform.endswith('-static'):
+            ns['__conform__'] = staticmethod(conform_fn)
+        elif conform == 'value-instfunc':
+            inst_attrs['__conform__'] = conform_fn
+        elif conform == 'value-partial':
+            import functools
+            inst_attrs['__conform__'] = functools.partial(lambda extra, proto: conform_fn(proto), 0)
+        else:
+            class CallableConform:
+                def __call__(self, proto):
+                    return conform_fn(proto)
+            inst_attrs['__conform__'] = CallableConform()
+    elif conform in ('none', 'value') or conform.startswith('raise-'):
         def __conform__(self, proto):
             log.append('conform')
             state['conform_arg_ok'] = proto is iface
@@ -95,6 +115,8 @@ def build_obj(conform, provided, iface, log, state):
     if provided == 'class':
         classImplements(cls, iface)
     obj = cls()
+    for k, v in inst_attrs.items():
+        setattr(obj, k, v)
     if provided == 'direct':
         directlyProvides(obj, iface)
     return obj
@@ -113,7 +135,7 @@ def reference(conform, provided, hooks, alt, custom, obj, iface, state, direct_a
             log.append('conform')
             if conform.startswith('raise-'):
                 return log, ('raise', state['conform_exc'])
-            if conform == 'value':
+            if conform.startswith('value'):
                 return log, ('return', state['conform_value'])
     beh = custom.split(':')[1] if custom != 'none' else None
     res = None
@@ -169,7 +191,7 @@ def run_case(ctx, rng, job):
             state = {'conform_value': object(), 'adapt_value': object(), 'alt': object(),
                      'hook_values': [object() for _ in hooks], 'hook_excs': [Marker('hook%d' % n) for n in range(len(hooks))],
                      'adapt_exc': Marker('adapt')}
-            if '-' in conform:
+            if conform.startswith(('raise-', 'get-')):
                 state['conform_exc'] = EXC[conform.split('-', 1)[1]]('from conform')
             iface = build_iface(custom, log, state)
             obj = build_obj(conform, provided, iface, log, state)
